@@ -4,6 +4,7 @@ import CCT.Model.Construct
 import CCT.Model.Cli
 import CCT.Model.SignSteps
 import CCT.Model.RootSigning
+import CCT.Model.GpgSteps
 import CCT.Ref.Crypto
 import Std.Data.HashMap
 /-!
@@ -450,6 +451,19 @@ def handle (memo : Memo) (line : String) : Memo × String :=
                 | some (.j (.str f), []) =>
                   let (o, q) := cliGpgKeyLookup G sslib f
                   (memo, "exit=" ++ toString (exitStatus .modulePkg o) ++ " q=" ++ (match q with | some s => "s" ++ codesStr s | none => "-"))
+                | _ => (memo, "X bad-args")
+              | "steps" => match r3 with
+                -- gpg steps … <file bytes | -> <fingerprint value> <fault index | ->: the step machine of the file-level GPG signing
+                | ft :: r4 =>
+                  let file : Option (Option Bytes) := if ft == "-" then some none else (parseHexBytes (match ft.toList with | 'x' :: r => String.ofList r | l => String.ofList l)).map some
+                  match file, parseVal r4 with
+                  | some fl, some (.j f, [flt]) =>
+                    let fault : Option Nat := if flt == "-" then none else flt.toNat?
+                    let (r, st) := runGpgSign G sslib f fl fault
+                    let rs := match r with | .done => "done" | .failed e => "failed:" ++ e.name | .injected i => "injected:" ++ toString i
+                    let os := String.ofList (st.opens.map fun o => match o with | .read => 'r' | .write => 'w')
+                    (memo, rs ++ " opens=" ++ os ++ " file=" ++ (match st.file with | some b => hexStr b | none => "-") ++ " steps=" ++ toString gpgPlan.length)
+                  | _, _ => (memo, "X bad-args")
                 | _ => (memo, "X bad-args")
               | "via" => match parseVal r3 with
                 | some (d, r4) => match parseVal r4 with
